@@ -70,9 +70,9 @@ def run(ctx):
                ('pytorch', 'scipy', True, True), ('jax', 'scipy', True, False), ('tensorflow', 'scipy', True, True), ('pytorch', 'minuit', True, False)]
     if not ctx.thorough:
         configs = configs[:4] + [configs[4 + ctx.seed % 4]]
-    nfit = ctx.n(10, 300)
+    nfit = ctx.n(24, 400)
     for i in range(nfit):
-        kind = rng.choice(['single', 'multi', 'generated', 'shapesys'])
+        kind = rng.choice(['single', 'multi', 'generated', 'shapesys']) if i >= 4 else 'shapesys'   # the first four cases are directed: values on bounds
         if kind == 'single':
             s, b = rng.choice([5.0, 10.0]), rng.choice([20.0, 60.0]); spec = counting.single_bin_spec(s, b)
         elif kind == 'multi':
@@ -83,23 +83,31 @@ def run(ctx):
             spec, _ = gen_spec.gen_spec(rng, max_channels=2, max_samples=2, max_bins=2, simple=True)
         pyhf.set_backend('numpy', 'scipy')
         m = pyhf.simplemodels.uncorrelated_background([rng.uniform(3, 10), rng.uniform(3, 10)], [50.0, 60.0], [5.0, 7.0]) if spec is None else pyhf.Model(spec, poi_name='mu')
-        init = m.config.suggested_init(); bounds = m.config.suggested_bounds(); fixed = m.config.suggested_fixed()
+        init = list(m.config.suggested_init()); bounds = m.config.suggested_bounds(); fixed = list(m.config.suggested_fixed())
+        # caller-supplied settings: sometimes hold one nuisance parameter constant, at its start value or exactly on a bound
+        custom = (rng.random() < 0.4 or i in (2, 3)) and len(init) >= 3
+        if custom:
+            k = rng.choice([j for j in range(len(init)) if j != m.config.poi_index])
+            lo_k, hi_k = bounds[k]
+            fixed[k] = True; init[k] = rng.choice([init[k], hi_k] + ([lo_k] if lo_k < 0 else [])) if i >= 4 else hi_k
+        fkw = {'init_pars': init, 'fixed_params': fixed} if custom else {}
         exp = np.asarray(m.expected_actualdata(np.asarray(init)))
         r = rng.random()
         main = [float(x) for x in (np.random.RandomState(rng.randrange(2**31)).poisson(exp) if r < 0.6 else (exp if r < 0.8 else np.where(np.arange(len(exp)) == 0, 0.0, np.round(exp))))]
         data = main + m.config.auxdata
         mode = rng.choice(['free', 'fixed_poi'])
-        poi_val = rng.choice([0.0, 1.0, 2.5])
+        poi_val = rng.choice([0.0, 0.0, 1.0, 2.5, float(bounds[m.config.poi_index][1])])   # incl. both POI bounds
+        if i < 4: mode = 'fixed_poi' if i != 3 else 'free'; poi_val = [0.0, float(bounds[m.config.poi_index][1]), 0.0, 1.0][i]
         results = []
         for (bk, opt, grad, stitch) in configs:
             pyhf.set_backend(bk, pyhf.optimize.minuit_optimizer(tolerance=1e-3) if opt == 'minuit' else pyhf.optimize.scipy_optimizer(tolerance=1e-10))
             tl = pyhf.tensorlib
-            inp = {'model': kind, 'spec': spec, 'data': data, 'mode': mode, 'poi_val': poi_val, 'config': [bk, opt, grad, stitch]}
+            inp = {'model': kind, 'spec': spec, 'data': data, 'mode': mode, 'poi_val': poi_val, 'config': [bk, opt, grad, stitch], 'settings': fkw}
             try:
                 if mode == 'free':
-                    pars, fun = pyhf.infer.mle.fit(data, m, return_fitted_val=True, do_grad=grad, do_stitch=stitch)
+                    pars, fun = pyhf.infer.mle.fit(data, m, return_fitted_val=True, do_grad=grad, do_stitch=stitch, **fkw)
                 else:
-                    pars, fun = pyhf.infer.mle.fixed_poi_fit(poi_val, data, m, return_fitted_val=True, do_grad=grad, do_stitch=stitch)
+                    pars, fun = pyhf.infer.mle.fixed_poi_fit(poi_val, data, m, return_fitted_val=True, do_grad=grad, do_stitch=stitch, **fkw)
             except Exception as e:  # noqa
                 nfree = sum(1 for k, f in enumerate(fixed) if not f and not (mode == 'fixed_poi' and k == m.config.poi_index))
                 if nfree == 0 and (stitch or opt == 'minuit'):
